@@ -23,13 +23,23 @@ from compiler.util import ir_data_utils
 _FIXED_SIZE_ATTRIBUTE = "fixed_size_in_bits"
 
 
-def get_attribute(attribute_list, name):
-    """Finds name in attribute_list and returns a AttributeValue or None."""
+def get_attribute(attribute_list, name, back_end=""):
+    """Finds name in attribute_list and returns a AttributeValue or None.
+
+    Only attributes with the given back end qualifier are considered: by default,
+    the unqualified (core) attributes, so that `[(java) byte_order: ...]` is not
+    mistaken for `[byte_order: ...]`; a back end passes its own name to find its
+    attributes (`[(cpp) namespace: ...]`).
+    """
     if not attribute_list:
         return None
     attribute_value = None
     for attr in attribute_list:
-        if attr.name.text == name and not attr.is_default:
+        if (
+            attr.name.text == name
+            and not attr.is_default
+            and (ir_data_utils.reader(attr).back_end.text or "") == back_end
+        ):
             assert attribute_value is None, 'Duplicate attribute "{}".'.format(name)
             attribute_value = attr.value
     return attribute_value
